@@ -20,16 +20,36 @@ TRUSTED = ["hand model of the firm loop / Python sum / mean(skipna), of the risk
 ASSUMPTIONS = ["dyadic forecasts / observations / thresholds / weights so float + - * and comparisons are exact "
                "(probability thresholds of the risk matrix are arbitrary floats sent as exact rationals; sums to 1e-9)",
                "weights=None (apply_weights belongs to C03); equal coordinate label sets in any stored order",
-               "severity_dim / prob_threshold_dim passed as interned literals until F10 (identity comparison) is fixed"]
+               "dimension-name arguments are freshly built str objects (F10 regression guard)"]
+MANIFEST = dict(
+    level="proof",
+    text="Kernel-checked Lean theorems about _single_category_score and the per-cell part of _risk_matrix_score, regenerated "
+         "from multicategorical_impl.py / risk_matrix.py on every run: for all finite inputs the three FIRM variables per "
+         "threshold are (1-alpha)*s*1[false alarm] and alpha*s*1[miss] with closedness by threshold_assignment and "
+         "s = 1 / min(distance, d) / distance for discount 0 / finite / inf (0 means no discount), firm = over + under for all "
+         "inputs, NaN propagation, the per-case value is the weighted sum over thresholds, and with 'lower' it coincides with the "
+         "weighted sum of the Murphy quantile / Huber(a=d) / expectile elementary scores computed by murphy_impl.py's kernels "
+         "(with 'upper' and no discount: their left limit); a risk-matrix case is the double sum of weight*p (forecast at/above "
+         "p, event absent) and weight*(1-p) (below p, event present), NaN anywhere gives NaN (skipna=False read off the source); "
+         "matrix_weights_to_array labels row i with the i-th largest threshold for any order of the supplied coordinates.",
+    note="Trusted: Lean kernel; py2lean translator; SV.Fl (no rounding); hand model of the firm loop/sum/mean, of the risk-matrix "
+         "reduction, of matrix_weights_to_array and of _scaling_to_weight_matrix (differential correspondence only). "
+         "_scaling_to_weight_matrix has no Lean theorem: it is compared with the literal model and with a declarative "
+         "staircase-corner oracle; it loses level crossovers when rows-1 > number of levels (notes/C12.md N1, tagged, not failed). "
+         "'upper' with discounting is checked on the implementation only (affine extrapolation of murphy_score). "
+         "weights= (apply_weights) belongs to C03.",
+    technique="Lean 4 theorems over translator-regenerated kernels (two modules tied to a third through C11) + hand model; "
+              "differential correspondence; exact-rational Spec oracle; relation FIRM = sum w * murphy_score between implementation runs",
+    design="6/C12")
 RULE = ("FIRM: 2-D (a x b) dyadic fcst/obs (30 % obs copied from fcst), 1-3 thresholds as scalars or DataArrays over a subset of "
         "the dims with 50 % of values copied from fcst/obs and NaN, weights scalar or DataArray with NaN, alpha dyadic, "
         "discount in {0, 0.25..2, inf}, both assignments; risk matrix: 1-3 severity categories x 1-3 probability thresholds, "
         "fcst copied from a threshold 50 %, obs in {0,1,nan}; distinct = canonical input hash; non-trivial = some non-zero "
         "finite output")
 
-# TODO(F10): risk_matrix_score compares the severity dimension name by identity (`is not`); until the lead's `fix:` commit
-# (`!=`) lands, the dimension-name arguments below are interned literals.  Set C12_FRESH_DIMS=1 to pass freshly built strings.
-FRESH = os.environ.get("C12_FRESH_DIMS", "") == "1"
+# F10 (risk_matrix_score compared the severity dimension name by identity) is repaired in /repo (`!=`): dimension-name
+# arguments are freshly built, non-interned str objects.  C12_FRESH_DIMS=0 falls back to interned literals.
+FRESH = os.environ.get("C12_FRESH_DIMS", "1") != "0"
 FINDINGS = os.environ.get("C12_FINDINGS", "") == "1"
 
 
